@@ -8,9 +8,22 @@ open Gpa.Pipeline Gpa.Rbac Gpa.Text Gpa.Url Gpa.Headers Gpa.Canon
 
 variable (mac : Str → List UInt8 → Str)
 
-/-- the client's headers other than the three proxy-owned names -/
+/-- the client's headers other than the three proxy-owned names and the message-framing header
+`transfer-encoding` (which the property lets either leg regenerate) -/
 def clientPart (hs : Headers) : Headers :=
-  hs.filter fun kv => kv.1 ≠ claimsHeader ∧ kv.1 ≠ dateHeader ∧ kv.1 ≠ authHeader
+  hs.filter fun kv => kv.1 ≠ claimsHeader ∧ kv.1 ≠ dateHeader ∧ kv.1 ≠ authHeader ∧ kv.1 ≠ teHeader
+
+theorem clientPart_remove_te (hs : Headers) : clientPart (remove teHeader hs) = clientPart hs := by
+  unfold clientPart remove
+  rw [List.filter_filter]
+  apply List.filter_congr
+  intro kv _
+  by_cases h : kv.1 = teHeader <;> simp [h]
+
+theorem clientPart_signed (r : Req) (hs : Headers) : clientPart (signedHeaders r hs) = clientPart hs := by
+  unfold signedHeaders; split
+  · exact clientPart_remove_te hs
+  · rfl
 
 theorem clientPart_insert (n v : Str) (hs : Headers)
     (hn : n = claimsHeader ∨ n = dateHeader ∨ n = authHeader) :
@@ -33,9 +46,10 @@ theorem request_transparent (env : Env) (conn : Conn) (r : Req) (u : UpReq)
   have howned : clientPart (ownedHeaders env caller r) = clientPart (ofWire r.headers) := by
     unfold ownedHeaders
     rw [clientPart_insert _ _ _ (Or.inr (Or.inl rfl)), clientPart_insert _ _ _ (Or.inl rfl)]
-  rcases hcase with ⟨hh, _, _⟩ | ⟨_, _, _, _, _, _, _, hh, _⟩
+  rcases hcase with ⟨hh, _, _⟩ | ⟨hh, _, _⟩ | ⟨_, _, _, _, _, _, _, hh, _⟩
   · rw [hh, howned]
-  · rw [hh, clientPart_insert _ _ _ (Or.inr (Or.inr rfl)), howned]
+  · rw [hh, clientPart_signed, howned]
+  · rw [hh, clientPart_insert _ _ _ (Or.inr (Or.inr rfl)), clientPart_signed, howned]
 
 /-- `u8::to_be` is the identity on a byte: the response frame mapping changes nothing -/
 theorem to_be_identity (bs : List UInt8) : bs.map (fun b => b) = bs := List.map_id' bs
